@@ -283,6 +283,7 @@ def run(F, res, tier):
     groups_scan_every_body(F, res)
     unknowns_unify_by_value(F, res)
     group_members_share_one_counter(F, res)
+    naming_state_is_per_function(F, res)
 
 
 def resolver_swaps(F, res, rule="Y4"):
@@ -585,3 +586,59 @@ def group_members_share_one_counter(F, res, rule="Y8"):
             why.append("the context built at line %s starts from a counter that no iteration updates from the previous member's idx" % s.get("ln"))
     res.ob(rule, "group/one-idx-counter", "the idx counter of type variables runs on from one member of a recursion group to the next",
            n > 0 and ok, where=f.loc(), how="; ".join(why) or "%d context(s) built in the loop, counter carried over" % n)
+
+
+def naming_state_is_per_function(F, res, rule="Y9"):
+    """Y9: the displayed type of a function names its unsolved variables a, b, c .. in order of first appearance *in that
+    function's own types*. The Collector that freezes the types carries the naming state (letters handed out, the counter)
+    and a memo of already frozen types, which contains letters. Whatever of that state Collector::collect writes must be
+    fresh for every function of a group: the Collector is built inside the per-function loop of finish_infer, or every
+    iteration passes a Collector method that re-initialises *all* of those fields. A memo that survives from the previous
+    member hands out that member's letters (`#(a, List(a))` for `#(a, List(b))`), and which member is "previous" follows a
+    HashMap's order."""
+    from lib import effects as EF
+    COL = "ide::ty::infer::Collector"
+    fi = F.fn("ide::ty::infer::finish_infer")
+    methods = [p for p in F.fns if p.startswith(COL + "::") and "{closure" not in p and F.fns[p].blocks]
+    reach = set(F.reachable_from([COL + "::collect"])) & set(methods) | {COL + "::collect"}
+    state = set()
+    for p in sorted(reach):
+        for q in F.with_closures(p):
+            for e in EF.field_effects(F.fns[q], COL):
+                if e["how"] in ("assign", "mutborrow") and e["field"] != "table":
+                    state.add(e["field"])
+    collects = [(b, t) for b, t in fi.calls() if (callee(t) or "") == COL + "::collect"]
+    news = [(b, t) for b, t in fi.calls() if (callee(t) or "") == COL + "::new"]
+    res.floor("Collector::collect calls in finish_infer", len(collects), 2)
+    # the per-function loop: the outermost loop that contains every collect call
+    loops = []
+    for tl, hd in fi.back_edges():
+        lp = fi.natural_loop(tl, hd)
+        if collects and all(b in lp for b, t in collects):
+            loops.append((len(lp), hd, lp))
+    ok, how = False, "no loop around the collect calls"
+    if loops:
+        _n, hd, lp = max(loops)
+        fresh = [b for b, t in news if b in lp]
+        if fresh:
+            ok = not FL.every_iteration_passes(fi, fresh) or all(w[0] != hd for w in FL.every_iteration_passes(fi, fresh))
+            how = "Collector::new inside the per-function loop"
+        else:
+            # a reset method called on every iteration must overwrite all of the state
+            resets = {}
+            for b, t in fi.calls():
+                c = callee(t) or ""
+                if b in lp and c.startswith(COL + "::") and c not in (COL + "::collect",):
+                    wr = set()
+                    for q in F.with_closures(c):
+                        for e in EF.field_effects(F.fns[q], COL):
+                            if e["how"] in ("assign", "mutborrow"):
+                                wr.add(e["field"])
+                    resets[b] = (FL.short(c), wr)
+            covering = [b for b, (c, wr) in resets.items() if state <= wr]
+            ways = [w for w in FL.every_iteration_passes(fi, covering) if w[0] == hd] if covering else [(hd, None)]
+            ok = bool(covering) and not ways
+            how = "Collector built outside the loop; per-iteration Collector calls %s; state written by collect: %s" % (
+                sorted((c, sorted(wr)) for c, wr in resets.values()), sorted(state))
+    res.ob(rule, "finish_infer/fresh-naming-per-function", "every function of a group is frozen with naming state and memo of its own (all fields "
+           "Collector::collect writes: %s)" % sorted(state), ok and bool(state), where=fi.loc(), how=how)
